@@ -3,8 +3,10 @@
    Definitions only (lemmas: Bvm/ListLemmas.v, Bvm/Sound*.v).
 
    * `instr` has ONE constructor per variant of bytecode::Instruction, so the dump of a program is total.
-   * `decode` maps the SUPPORTED subset to micro-operations `uop`; everything else is `UUnsupported`
-     (closures, heap boxes, arrays, integer arithmetic): `run` answers `Unsupported` there.
+   * `decode` maps the subset THIS file gives a meaning to onto micro-operations `uop`; everything else is
+     `UUnsupported` here: `run` answers `Unsupported`.  Bvm/XModel.v extends the machine (closures, upvalue cells,
+     heap objects, per-closure state storages, arrays) and runs the instructions of this file through `lstep`;
+     only integer arithmetic, CastItoB and Dummy have no meaning anywhere.
    * Words are raw 64-bit patterns as Z.  The semantics is PARAMETRIC in the arithmetic: a record `arith`
      supplies the float operations on bit patterns, the truth test of JmpIfNeg, the `f64 as i64` cast used by the
      ring buffer, and the pure one-word external functions.  The safety theorem holds for every `arith`.
@@ -83,18 +85,35 @@ Definition decode (i : instr) : uop :=
 Record jtable := mkJT { jt_min : Z; jt_offsets : list Z }.
 
 (* program::FuncProto; `f_pwords` is NOT a field of FuncProto: an untrusted annotation (words of the parameters) used
-   only by the verifier; `f_ssize` = state_skeleton.total_size() *)
+   only by the verifier; `f_ssize` = state_skeleton.total_size(); `f_up` = upindexes (read by Bvm/XModel.v only) *)
+(* mir::OpenUpValue { pos, size, is_closure }: an entry of FuncProto.upindexes *)
+Record upidx := mkUp { u_pos : N; u_size : N; u_isc : bool }.
+
 Record fn := mkFn { f_pwords : N; f_nparam : N; f_nret : N; f_code : list instr; f_consts : list Z;
-                    f_jt : list jtable; f_ssize : N }.
+                    f_jt : list jtable; f_ssize : N; f_up : list upidx }.
 
 (* an entry of Program.ext_fun_table as the model sees it: a pure function that reads `arity` argument words and
    leaves ONE result word (runtime get_now / get_samplerate, the f64 -> f64 builtins), or anything else *)
-Inductive ext_kind := ExtPure (code arity : N) | ExtOther.
+Inductive ext_kind := ExtPure (code arity : N) | ExtOther
+(* a builtin on Machine.arrays (plugin/builtin_functins.rs len split_head split_tail prepend append and their
+   `$arityN` specialisations): given a meaning by Bvm/XModel.v only *)
+| ExtArr (op ew : N).
+
+(* types::Type as clone_usersum_recursive / release_usersum_recursive see it: Boxed(inner), UserSum { name, variants }
+   (payload type per variant), Tuple / Record (word size and type of every element), TypeAlias(name), anything else *)
+Inductive ty : Type :=
+| TPrim
+| TBoxed (inner : ty)
+| TSum (name : N) (variants : list (option ty))
+| TTuple (elems : list (N * ty))
+| TAlias (name : N).
 
 (* program::Program: global_fn_table, sum of global_vals, ext_fun_table, dsp_index, and for every entry of type_table
    whether the type is free of boxed references (Boxed / recursive TypeAlias): on such a type clone_usersum_recursive
-   and release_usersum_recursive touch nothing *)
-Record program := mkProg { p_funs : list fn; p_gsize : N; p_ext : list ext_kind; p_dsp : option N; p_types : list bool }.
+   and release_usersum_recursive touch nothing; `p_tys` is the type table itself (read by Bvm/XModel.v for the entries
+   that do contain boxed references) *)
+Record program := mkProg { p_funs : list fn; p_gsize : N; p_ext : list ext_kind; p_dsp : option N; p_types : list bool;
+                           p_tys : list ty }.
 
 (* ---------- arithmetic, supplied from outside ---------- *)
 Record arith := mkArith {
@@ -106,6 +125,26 @@ Record arith := mkArith {
 }.
 
 (* ---------- faults ---------- *)
+(* Faults whose absence depends on the VALUE a register or an upvalue cell holds at run time (a handle, a callable, the
+   words of a cell), which no static check on untyped bytecode decides; the soundness theorem of the closure layer
+   (Bvm/XSound*.v) excludes exactly these.  The last four are raised by the instrumented (`strict`) semantics of
+   Bvm/XModel.v only: the real VM makes no such check and goes on. *)
+Inductive dynfault :=
+| DynHandle         (* a stale ClosureIdx / HeapIdx / ArrayIdx is dereferenced, or the object is smaller than the access:
+                       get_closure (assertion of the verif build, unchecked access otherwise), drop_closure's unwrap,
+                       `expect("BoxLoad: invalid heap index")`, data[..inner_size], "Invalid indirect callable" *)
+| DynUpvalue        (* the content of an upvalue cell does not fit: an open cell points outside the value stack
+                       (get_open_upvalue reads through a raw pointer), a closure-typed cell has no word (data[0]),
+                       SetUpValue on a closed cell of another width (copy_from_slice) *)
+| DynSignature      (* strict: the function behind an indirect callee does not fit the call site (parameter words,
+                       result words, a plain function that expects upvalues or more state than the caller has left) *)
+| DynReentry        (* strict: a closure is entered while the cursor of its own state storage is not at 0 *)
+| DynOpenWrite      (* strict: SetUpValue through an OPEN cell (a write into another activation's registers) *)
+| DynCellWidth.     (* strict: an upvalue cell is not as wide as the running function's upindexes entry declares *)
+
+Definition strict_only (d : dynfault) : bool :=
+  match d with DynSignature | DynReentry | DynOpenWrite | DynCellWidth => true | _ => false end.
+
 Inductive fault :=
 | StackReadOOB      (* get_stack / get_stack_range / copy_within index panic *)
 | ConstOOB          (* constants[pos] *)
@@ -117,9 +156,18 @@ Inductive fault :=
 | ExtIndexOOB       (* fn_map.get(&idx).unwrap() *)
 | JumpTableOOB      (* jump_tables[idx], empty offsets *)
 | TypeTableOOB      (* get_type_from_table(idx).expect(..) *)
-| BaseUnderflow.    (* base_pointer - 1 with base_pointer = 0 *)
+| BaseUnderflow     (* base_pointer - 1 with base_pointer = 0 *)
+(* the closure / heap layer (Bvm/XModel.v) *)
+| NoClosureEnv      (* GetUpValue / SetUpValue: cls_i.unwrap() in a function entered without a closure *)
+| UpvalueIndexOOB   (* upvalues[index] *)
+| Dyn (d : dynfault).
 
-Inductive unsup := UnsupInstr | UnsupExt | UnsupNretFallback | UnsupBoxed.
+Definition is_dyn (f : fault) : bool := match f with Dyn _ => true | _ => false end.
+
+(* UnsupStackAlias: GetUpValue of an OPEN upvalue hands set_vec_range a slice that points into the value stack; when the
+   write has to grow the stack (destination above the top, or several words pushed at the top) Vec::resize / push may
+   reallocate it and the slice is read after the free: the behaviour of the real VM is undefined there *)
+Inductive unsup := UnsupInstr | UnsupExt | UnsupNretFallback | UnsupBoxed | UnsupStackAlias.
 
 (* ---------- machine state ---------- *)
 (* Machine.stack, Machine.global_vals, global_states.pos, global_states.rawdata *)
@@ -220,7 +268,7 @@ Section Exec.
         | Some iv =>
             match rd1 (p_ext p) (Z.to_N iv) with
             | None => LFault ExtIndexOOB
-            | Some ExtOther => LUnsup UnsupExt
+            | Some ExtOther | Some (ExtArr _ _) => LUnsup UnsupExt
             | Some (ExtPure code arity) =>
                 let base' := base + fr + 1 in
                 if (nargs =? 0) || (base' + nargs <=? lenN (m_stack m)) then
